@@ -55,6 +55,10 @@ pub struct Cfg {
     pub proj: bool,
     #[serde(default)]
     pub keep_dir: bool,
+    /// C10: before the behaviour's own instances, open and drop a throwaway instance with this fsync schedule
+    /// (the engine latches process-wide settings from the first instance, e.g. whether WAL files get O_SYNC).
+    #[serde(default)]
+    pub pre_fsync: Option<String>,
 }
 fn one() -> u32 { 1 }
 fn default_fsync() -> String { "ms200".to_string() }
